@@ -92,6 +92,7 @@ ARG_POOLS = {
     'hug-dict': [{'a': 1, 'b': 2, 'c': 3}, [0], 'y'],
     'nested-call': [Callee(1, z=[2]), [Callee()], 'w'],
     'long-str': ['several words that make a long string argument for the call', 7, [1]],
+    'callable-first': [func, (1, 2), [0]],
 }
 KW_NAMES = ['alpha', 'b', 'a_rather_long_keyword_name']
 KW_VALUES = {
@@ -101,6 +102,7 @@ KW_VALUES = {
     'hug-dict': [{'z': 1}, 2, 3],
     'nested-call': [Callee(5), 6, 7],
     'long-str': ['another fairly long keyword string value', 1, 2],
+    'callable-first': [Callee, func, 3],
 }
 CALLABLES = {'class': Callee, 'nested-class': Outer.Inner, 'function': func}
 
